@@ -350,7 +350,7 @@ class TokenOps(Suite):
                 for raises in ([], [0], list(range(k))):
                     if raises and not k:
                         continue
-                    out.append({"ops": ops, "raises": raises})
+                    out.append({"ops": ops, "raises": raises, "exc": len(out) % 11})
         rng = ctx.sub_rng("c14-token", budget)
         for _ in range(300 if budget == "quick" else 20000):
             n, k, ops = rng.randint(5, 14), 0, []
@@ -363,7 +363,7 @@ class TokenOps(Suite):
                 else:
                     ops.append(["add", k])
                     k += 1
-            out.append({"ops": ops, "raises": sorted(set(rng.randint(0, max(0, k)) for _ in range(rng.randint(0, 3))))})
+            out.append({"ops": ops, "raises": sorted(set(rng.randint(0, max(0, k)) for _ in range(rng.randint(0, 3)))), "exc": rng.randint(0, 10)})
         return out
 
     def impl(self, case):
@@ -377,7 +377,7 @@ class TokenOps(Suite):
             def cb():
                 cur.append(i)
                 if i in raises:
-                    raise RuntimeError(f"callback {i} (scripted)")
+                    raise H._CB_EXCEPTIONS[(case.get("exc", 0) + i) % len(H._CB_EXCEPTIONS)]()
             return cb
 
         for op in case["ops"]:
